@@ -1783,7 +1783,7 @@ def total_lines(files: dict[str, str]) -> int:
     return sum(len(v.splitlines()) for v in files.values())
 
 
-def corpus_probes(quick: bool = False) -> list[dict[str, Any]]:
+def corpus_probes(quick: bool = False, seed: int | None = None) -> list[dict[str, Any]]:
     """Minimised past failures, degenerate-form probes and the directed corpus (committed under corpus/C20), run first
     in every tier, independent of the seed.  quick: entries marked "q": false are skipped."""
     out = []
@@ -1796,6 +1796,9 @@ def corpus_probes(quick: bool = False) -> list[dict[str, Any]]:
             if "files" in e:
                 if quick and e.get("q") is False:
                     continue
+                if not quick and seed is not None and e.get("q") is False and \
+                        random.Random(f"{seed}/directed/{e.get('name')}").random() >= 1 / 3:
+                    continue      # thorough: the quick subset (all minimal shapes) + a seeded third of the rest
                 args = list(e.get("args", []))
                 out.append({"name": "corpus:" + os.path.basename(p) + (":" + str(e["name"]) if e.get("name") else ""), "desc": "corpus", "files": e["files"], "args": args,
                             "targets": e.get("targets", ["main.py"]), "flagkey": flagkey(args), "expect": e.get("key"),
@@ -2506,8 +2509,23 @@ def daemon_histories(hists: list[dict[str, Any]]) -> list[dict[str, Any]]:
             return [{"step": "start", "status": -1, "out": "daemon did not start", "hung": False, "name": "start", "files": {}}]
         _dmypy(sf, ["check", "--", "main.py"], wd)
         answered = 0
+        first = True
         for h in hists:
             wipe()
+            if not first:
+                # a FRESH daemon per history: with a reused daemon the outcome of a history depended on which histories
+                # it had served before (modules of the same names stay in its graph) -- not reproducible across samples
+                _dmypy(sf, ["kill"], wd, limit=20)
+                ok_start = False
+                for _try in range(20):          # the old daemon may need a moment to release its socket / status file
+                    if start() == 0:
+                        ok_start = True
+                        break
+                    time.sleep(0.3)
+                    _dmypy(sf, ["kill"], wd, limit=20)
+                if not ok_start:
+                    return bad + [{"step": "summary", "answered": answered, "start_failed": True}]
+            first = False
             state: dict[str, str] = {}
             for i, (step, cmd) in enumerate(zip(h["steps"], h["cmds"])):
                 clock += 7
@@ -2533,13 +2551,6 @@ def daemon_histories(hists: list[dict[str, Any]]) -> list[dict[str, Any]]:
                 if hung or "Daemon crashed" in out or "Traceback (most recent call last)" in out or "INTERNAL ERROR" in out or st not in (0, 1, 2):
                     bad.append({"step": f"{h['name']} step {i} ({cmd})", "status": st, "out": out, "hung": hung, "name": h["name"], "files": dict(state),
                                 "history": h["steps"][: i + 1], "cmds": h["cmds"][: i + 1], "args": []})
-                    _dmypy(sf, ["kill"], wd, limit=20)
-                    wipe()
-                    with open(os.path.join(wd, "main.py"), "w") as fh:
-                        fh.write("x = 1\n")
-                    if start() != 0:
-                        return bad + [{"step": "summary", "answered": answered}]
-                    _dmypy(sf, ["check", "--", "main.py"], wd)
                     break
                 answered += 1
         bad.append({"step": "summary", "answered": answered})
@@ -2574,8 +2585,8 @@ def classify_daemon(ev: dict[str, Any]) -> tuple[str, str] | None:
 def stage_S(ctx: vlib.Ctx) -> None:
     t0 = time.time()
     corpus = load_corpus()
-    n_mut = int(os.environ.get("VERIF_C20_MUTANTS", ctx.n(96, 20000)))
-    budget = float(os.environ.get("VERIF_C20_BUDGET_S", ctx.n(150, 1380)))
+    n_mut = int(os.environ.get("VERIF_C20_MUTANTS", ctx.n(96, 3000)))
+    budget = float(os.environ.get("VERIF_C20_BUDGET_S", ctx.n(150, 600)))
     root = tempfile.mkdtemp(prefix="c20-pool-")
     pool = Pool(root, vlib.NPROC)
     found: dict[str, Finding] = {}
@@ -2585,7 +2596,7 @@ def stage_S(ctx: vlib.Ctx) -> None:
     try:
         # 1. deterministic probes: the known hang (short limit) and the committed corpus of minimised failures
         probes = [{"name": "probe:pow-hang", "desc": "probe", "files": {"main.py": POW_HANG}, "args": [], "targets": ["main.py"],
-                   "flagkey": flagkey([]), "timeout": 10.0, "expect": "hang:mypy/constant_fold.py:constant_fold_binary_int_op"}] + corpus_probes(ctx.quick)
+                   "flagkey": flagkey([]), "timeout": 10.0, "expect": "hang:mypy/constant_fold.py:constant_fold_binary_int_op"}] + corpus_probes(ctx.quick, ctx.seed)
         for i, j in enumerate(probes):
             j["id"] = -1 - i
         rs = pool.run(probes, chunk=30)
@@ -2653,7 +2664,7 @@ def stage_S(ctx: vlib.Ctx) -> None:
         ctx.cov["worker_cpu_s"] = round(cpu, 1)
         ctx.cov["worker_restarts"] = pool.restarts
         # 3. subprocess sample: true exit codes of `python -m mypy`, incremental off
-        n_sub = ctx.n(16, 96) if n_mut else 0        # (VERIF_C20_MUTANTS=0: developer mode, probes only)
+        n_sub = ctx.n(16, 48) if n_mut else 0        # (VERIF_C20_MUTANTS=0: developer mode, probes only)
         sub_jobs = [make_mutant(ctx.seed, i, corpus) for i in range(0, n_sub)]
         sub = run_sub_sample(sub_jobs, vlib.NPROC)
         sub_status: dict[str, int] = {}
@@ -2666,7 +2677,7 @@ def stage_S(ctx: vlib.Ctx) -> None:
         ctx.add("evaluations", n_sub)
         ctx.log(f"S: subprocess sample {n_sub}: {sub_status} ({time.time()-t0:.1f}s)")
         # 4. daemon sample
-        n_dm, steps = (ctx.n(8, 48) if n_mut else 0), ctx.n(5, 10)
+        n_dm, steps = (ctx.n(8, 24) if n_mut else 0), ctx.n(5, 10)
         from concurrent.futures import ThreadPoolExecutor
         with ThreadPoolExecutor(max_workers=vlib.NPROC) as ex:
             sessions = list(ex.map(lambda i: daemon_session(ctx.seed, i, corpus, steps), range(n_dm)))
@@ -2684,7 +2695,8 @@ def stage_S(ctx: vlib.Ctx) -> None:
             if ctx.quick:
                 dprogs = [e for i, e in enumerate([e for e in dprogs if e.get("q")]) if i % 6 == 0]
             else:
-                dprogs = [e for i, e in enumerate(dprogs) if e.get("q") or i % 4 == 0]
+                dprogs = [e for i, e in enumerate(dprogs) if (e.get("q") and i % 2 == 0) or
+                          random.Random(f"{ctx.seed}/ddaemon/{e.get('name')}").random() < 0.1]
             # programs that crash in batch mode crash the daemon the same way (one listed finding each): not repeated here
             dprogs = [e for e in dprogs if e["name"] not in expected_fail]
             slices = [dprogs[k::vlib.NPROC] for k in range(vlib.NPROC)]
@@ -2708,6 +2720,8 @@ def stage_S(ctx: vlib.Ctx) -> None:
             hists = json.load(open(hp)) if os.path.exists(hp) else []
             if ctx.quick:
                 hists = [h for h in hists if h.get("q")]
+            else:
+                hists = [h for h in hists if h.get("q") or random.Random(f"{ctx.seed}/hist/{h['name']}").random() < 1 / 3]
             hslices = [hists[k::vlib.NPROC] for k in range(vlib.NPROC)]
             with ThreadPoolExecutor(max_workers=vlib.NPROC) as ex:
                 hres = list(ex.map(lambda k: daemon_histories(hslices[k]) if hslices[k] else [], range(vlib.NPROC)))
@@ -2802,7 +2816,7 @@ def stage_S(ctx: vlib.Ctx) -> None:
             do_shrink = f.mode in ("batch", "subprocess") and key not in known and os.environ.get("VERIF_C20_SHRINK", "1") == "1"
             if do_shrink:
                 try:
-                    job = shrink(pool, job, key, budget_s=ctx.n(60, 240), log=ctx.log)
+                    job = shrink(pool, job, key, budget_s=ctx.n(60, 120), log=ctx.log)
                 except Exception as e:  # noqa
                     ctx.log(f"shrink failed for {key}: {e!r}")
             tb = f.res.get("tb") or f.res.get("out", "")
